@@ -392,6 +392,52 @@ Section Fit.
     induction ds as [|d ds IH]; intros mws st i; [reflexivity|]. destruct mws as [|mw mws]; [reflexivity|].
     cbn [JointFit.fit_dims hd tl]. rewrite (fit_dim_start_free slicers rows i d mw (hd None st) Ht Hd).
     rewrite (IH mws (tl st) (S i)). destruct ds; reflexivity. Qed.
+  (* ---- alignment of the lists of a conditional dimension; unconditional dimensions; rejected input *)
+  Lemma nth_error_combine_seq {A} (l : list A) : forall s j,
+    nth_error (combine (seq s (length l)) l) j = option_map (fun d => (s + j, d)) (nth_error l j).
+  Proof. induction l as [|a l IH]; intros s j; [destruct j; reflexivity|]. cbn [length seq combine]. destruct j as [|j].
+    - cbn. rewrite Nat.add_0_r. reflexivity.
+    - cbn [nth_error]. rewrite IH. destruct (nth_error l j); cbn; [|reflexivity]. f_equal. f_equal. lia. Qed.
+
+  (* one reference, one pair of boundaries and one estimate per stored interval, in the same order; estimate k
+     is the fit of a fresh template copy to interval k; dependence function j is fitted to
+     (all references, parameter j's estimates), one result per conditional parameter *)
+  Theorem cond_lists_aligned slicers rows i tm c deps mw prev ivs refs bs pars dps :
+    fit_dim slicers rows i (DC tm c deps) mw prev = Some (FC ivs refs bs pars dps) ->
+    length refs = length ivs /\ length bs = length ivs /\ length pars = length ivs /\ length dps = length deps /\
+    (forall k iv, nth_error ivs k = Some iv -> nth_error pars k = Some (tfit tm None (fst mw) (snd mw) iv)) /\
+    (forall j dep, nth_error deps j = Some dep ->
+                   nth_error dps j = Some (dfit dep (prevD T R P DP prev j) refs (map (proj dep) pars))).
+  Proof.
+    cbn [JointFit.fit_dim]. unfold split_in_intervals. destruct (nth_error slicers c) as [sl|]; [|discriminate].
+    destruct (sl (col c rows)) as [rs|]; [|discriminate]. unfold JointFit.cond_fit. intros H. inversion H; subst. clear H.
+    rewrite !map_length, combine_length, seq_length, Nat.min_id. repeat split; try reflexivity.
+    - intros k iv Hk. rewrite nth_error_map, Hk. reflexivity.
+    - intros j dep Hj. rewrite nth_error_map, nth_error_combine_seq, Hj. reflexivity.
+  Qed.
+
+  Lemma uncond_fit slicers rows i tm mw prev :
+    fit_dim slicers rows i (DI tm) mw prev = Some (FI (tfit tm (prevP T R P DP prev) (fst mw) (snd mw) (col i rows))).
+  Proof. reflexivity. Qed.
+
+  Lemma all_some_none {A} (l : list (option A)) : In None l -> all_some l = None.
+  Proof. induction l as [|o l IH]; intros H; [destruct H|]. cbn [all_some]. destruct o as [a|]; [|reflexivity].
+    destruct H as [H|H]; [discriminate|]. rewrite (IH H). reflexivity. Qed.
+
+  (* ValueError: a row of the wrong length, a fit-description list of the wrong length, a description without "method" *)
+  Theorem fit_rejects slicers ds st rows fds :
+    (exists r, In r rows /\ length r <> length ds) \/
+    (exists l, fds = Some l /\ (length l <> length ds \/ exists w, In (Some (mkfd None w)) l)) ->
+    fit slicers ds st rows fds = None.
+  Proof.
+    intros [[r [Hr Hl]]|[l [-> [Hl|[w Hw]]]]]; unfold JointFit.fit.
+    - destruct (fill M W mle wnone (length ds) fds); [|reflexivity].
+      destruct (forallb (fun r0 => length r0 =? length ds) rows) eqn:E; [|reflexivity].
+      rewrite forallb_forall in E. specialize (E r Hr). apply Nat.eqb_eq in E. contradiction.
+    - cbn [fill]. destruct (Nat.eqb_spec (length l) (length ds)); [contradiction|reflexivity].
+    - cbn [fill]. destruct (length l =? length ds); [|reflexivity].
+      rewrite all_some_none; [reflexivity|]. apply in_map_iff. exists (Some (mkfd None w)). split; [reflexivity|exact Hw].
+  Qed.
 End Fit.
 
 (* ------------------------------------------------------------------ value range: max / min by a fold *)
